@@ -127,10 +127,12 @@ Definition mismatch (c : case) : bool :=
 
 Definition order_fail (c : case) : bool := negb (obs_eqb (c_obs c) (c_obs2 c)).
 
+(* a failure counts as the RECORDED finding only when the model - which reproduces that finding - predicts exactly what the
+   implementation did on this case; any further deviation makes it a new failure with this input as the replay *)
 Definition spec_fail_new (c : case) : bool :=
-  order_fail c || existsb (fun cl => negb (claim_known c cl)) (failing_claims c).
+  order_fail c || existsb (fun cl => negb (claim_known c cl && negb (mismatch c))) (failing_claims c).
 Definition spec_fail_known (c : case) : bool :=
-  existsb (claim_known c) (failing_claims c).
+  negb (mismatch c) && existsb (claim_known c) (failing_claims c).
 Definition nontrivial (c : case) : bool :=
   match c_obs c with IObs (Some _) false _ => negb (Nat.eqb (length (c_claims c)) 0) | _ => false end.
 
